@@ -233,8 +233,11 @@ CLAIMS = {
                 'reachable panic. Whole programs follow by induction on the instruction count.',
         'design_ref': 'DESIGN.md §8 C12',
         'note': COMMON_NOTE + ' Quick: buffers <= 40 bytes / selected PushB lengths; thorough: 260 bytes / all PushB lengths. '
-                'io::Read cursor, Vec<u8> writer and ethnum::U256 are modelled; 1200+ random native round trips validate them.',
-        'technique': 'bounded symbolic execution of rustc MIR (one path per opcode / operand length) + z3 bit-vector obligations',
+                'io::Read cursor, Vec<u8> writer and ethnum::U256 are modelled; 1200+ random native round trips validate them. Thorough '
+                'tier: a second engine, Kani 0.68 / CBMC, decides decode -> encode on every byte string of <= 3 bytes from an independent '
+                'compilation of the same sources (unwind 34, unwinding assertions on; ~6 min, ~8 GB).',
+        'technique': 'bounded symbolic execution of rustc MIR (one path per opcode / operand length) + z3 bit-vector obligations; '
+                     'thorough tier: Kani / CBMC proof harness over kani::any() byte strings <= 3 bytes',
     },
     'C13': {
         'text': 'Symbolic execution of the MIR of load_stake_info / stake_is_consistent, the lock test of check_tx_validity, '
@@ -324,6 +327,9 @@ def main():
             {'name': 'replay', 'path': '/verif/replay', 'serves_properties': sorted(CLAIMS),
              'kind_free_text': 'native driver built against /repo with --cfg melstf_verif: replays solver models and '
                                'supplies translation-validation vectors'},
+            {'name': 'kani', 'path': '/verif/kani', 'serves_properties': ['C12'],
+             'kind_free_text': 'Kani 0.68 / CBMC 6.11 harness crate (path dependency on /repo/lib/melvm): thorough-tier cross-check of the '
+                               'C12 decode -> encode obligation on every byte string of <= 3 bytes, unwinding assertions on'},
         ],
         'checks': checks,
         'not_applicable': [{'property_id': p, 'reason': na[p]} for p in props if p not in CLAIMS],
